@@ -92,7 +92,9 @@ def apartCheck (s : DocState) (c1 c2 : List Nat) : Bool :=
 /-- all pairs of distinct methods of the file's interfaces are apart -/
 def FileFacts.methodsApart (f : FileFacts) : Bool :=
   let s : DocState := { groups := f.groups, docOf := f.docOf }
-  let ms := (f.scope.filter (fun o => o.isInterface && o.inSetupFile)).flatMap (·.methods)
+  -- a method inherited through an embedded interface is listed with every interface that has it: one method
+  let ms := ((f.scope.filter (fun o => o.isInterface && o.inSetupFile)).flatMap (·.methods)).foldl
+    (fun acc m => if acc.any (fun m' => m'.pos == m.pos && m'.name == m.name) then acc else acc ++ [m]) []
   let rec go : List MethodDecl → Bool
     | [] => true
     | m :: rest => rest.all (fun m' => apartCheck s m.docChain m'.docChain && apartCheck s m'.docChain m.docChain) && go rest
